@@ -147,6 +147,17 @@ macro_rules! Header {
                     _ => None
                 }
             }
+            /// field names are case-insensitive: `Content-length`, `HOST`, ...
+            #[inline]
+            pub fn from_bytes_ignore_case(bytes: &[u8]) -> Option<Self> {
+                Self::from_bytes(bytes).or_else(|| {
+                    let mut lower = [0u8; 32/* longer than any of known names */];
+                    let lower = lower.get_mut(..bytes.len())?;
+                    lower.copy_from_slice(bytes);
+                    lower.make_ascii_lowercase();
+                    Self::from_bytes(lower)
+                })
+            }
         }
 
         impl<T: AsRef<[u8]>> PartialEq<T> for Header {
@@ -194,10 +205,10 @@ macro_rules! Header {
                 self.get(name)
             }
             pub fn get(&self, name: &str) -> Option<&str> {
-                let value = self.custom.as_ref()?
-                    .get(&Slice::from_bytes(name.as_bytes()))
+                let value = self.custom.as_ref()
+                    .and_then(|custom| custom.get(&Slice::from_bytes(name.as_bytes())))
                     .or_else(|| {
-                        let standard = Header::from_bytes(name.as_bytes())?;
+                        let standard = Header::from_bytes_ignore_case(name.as_bytes())?;
                         unsafe {self.standard.get(standard as usize)}
                     })?;
                 Some(std::str::from_utf8(unsafe {value.as_bytes()}).expect("Header value is not UTF-8"))
